@@ -136,7 +136,7 @@ def run(ctx, chk):
             got = seen.get(t, set())
             if t == 9 and got == {"sotdma"}:
                 continue      # reported above (selector unread)
-            chk.ob(got == ws, "C16/coverage/%d/%s" % (t, sorted(got)), "type %d [%s]: access schemes decoded: %s, expected %s" % (t, cfg, sorted(got), sorted(ws)))
+            chk.ob(got == ws, "C16/coverage/%d/%s" % (t, sorted(map(str, got))), "type %d [%s]: access schemes decoded: %s, expected %s" % (t, cfg, sorted(map(str, got)), sorted(ws)))
     check_derived_impls(ctx, chk, "C16", cfgs, lambda short, full: full.startswith("messages::radio_status::"), 8, "that the reported communication state is the transmitted one")
     chk.cov["configs"] = cfgs
     chk.cov["programs"] = len(cfgs)
